@@ -2,9 +2,15 @@
   C07 — kernel. Every result of `mzd_kernel_left_pluq` is judged by `check_kernel` (driver): NULL iff rank = n,
   dimensions n × (n − r), `A·K = 0` for the ORIGINAL A (specification product), `rank K = n − r`. Proved: these four
   tests mean that the columns of K are a basis of the right null space (every null vector is a unique combination).
+  The routine itself is mirrored (`SV.kernelLeftPluq`, M4ri/Glue.lean; tied word for word by the `glue_kernel` phase of
+  the correspondence run, instantiated with the library's own factorisation) and proved for EVERY factorisation
+  satisfying `IsPLUQ`: NULL iff rank = ncols, otherwise K is n × (n − rank), A·K = 0, rank K = n − rank, a basis.
+  Mathlib form: `ML.kernel_tests_mathlib`.
 -/
 import M4riProofs.Kernel
 import M4riProofs.GaussOK
+import M4riProofs.Solve
+import M4riProofs.MathlibSpec
 namespace M4ri.Props.C07
 open M4ri M4ri.BMat
 
@@ -24,6 +30,12 @@ theorem kernel_tests_sound {A K : BMat} (hA : A.WF) (hK : K.WF) (h1 : K.nrows = 
     (∀ W W' : BMat, W.WF → W'.WF → W.nrows = K.ncols → W'.nrows = K.ncols → W'.ncols = W.ncols →
         K.mul W = K.mul W' → W = W') := GOK.kernel_checker_sound hA hK h1 h2 h3 h4
 
+#check @M4ri.BMat.SV.kernelLeftPluq_none_iff
+#check @M4ri.BMat.SV.kernelLeftPluq_some
+#check @M4ri.BMat.SV.kernelLeftPluq_basis
+
+#check @M4ri.BMat.SV.rank_of_pluq
+#check @M4ri.BMat.ML.kernel_tests_mathlib
 #check @M4ri.BMat.checkKernel_sound
 #check @M4ri.BMat.checkKernel_sound'
 
